@@ -78,6 +78,18 @@ CHECKS["C13"] = dict(
     note=COMMON_NOTE + " Exactness of the Gauss-Chebyshev-Lobatto quadrature itself is covered structurally under C16, not here.",
 )
 
+CHECKS["C14"] = dict(
+    level="other",
+    technique="static analysis: def-use pairing of loader names/slices, exception-discipline rule over raise/assert/handler sites, "
+              "axis-label flow (abstract interpretation of evaluate/moveaxis/transpose/reshape), CFG ordering rules",
+    text="For every number of particles, grid size and fault pattern: the loader derives file name, dataset name and destination slice from "
+         "the same ordered pair; the solver's array is replaced only by the value of a successful load; the listed faults leave "
+         "newFromDirectory through CollisionLoadError; the basis change is an inverse-transpose confined to the polynomial axes; the "
+         "axis-label flow of the interpolation shows that the reshape only splits the point axis into (pz, pp) -- which fails for more "
+         "than one particle in the original code (fixed, F6); interpolation works on a deep copy in the Chebyshev basis and converts back.",
+    note=COMMON_NOTE + " Numerical fidelity of the interpolation is not decided.",
+)
+
 NOT_APPLICABLE = {}
 
 ENGINES = [
